@@ -203,7 +203,7 @@ func (f *Frame) run(st *State, params []Val, bindings []Val) ([]Val, *State) {
 		f.loopMods(l)
 		if f.spec != nil {
 			for _, inv := range f.spec.Invariants {
-				if inv.Loop == l.ordinal {
+				if inv.Loop == l.ordinal && !skipLabel(inv.Label) {
 					l.userInv = append(l.userInv, inv)
 				}
 			}
